@@ -1,5 +1,193 @@
-(* STUB: Spec layer for hest -- to be written *)
-From Coq Require Import NArith List.
-From ACPI Require Import Lib.Bytes Lib.Sx Spec.Layout.
+(* Spec layer for the HEST (ACPI 6.5 18.3.2) and the two stand-alone error structures of hest.rs (18.3.2.7.1), written
+   from SPEC_NOTES.md A.2.
+
+   Case vocabulary of component 21 (shared with harness/src/t_hest.rs and Impl/Hest.v):
+     ctor  (oem6 tbl8 orev)
+     ops   (1 aer-ctor (setters))           add_structure(PcieAerRootPort ...)          type 6, 48 bytes
+           (2 aer-ctor (setters))           add_structure(PcieAerDevice ...)            type 7, 44 bytes
+           (3 aer-ctor (setters))           add_structure(PcieAerBridge ...)            type 8, 56 bytes
+           (4 source_id enabled (setters))  add_structure(GenericHardwareSource::new(source_id, enabled) ...)    type 9, 64 bytes
+           (5 source_id enabled (setters))  add_structure(GenericHardwareSourceV2::new(source_id, enabled) ...)  type 10, 92 bytes
+           (20 (cc uc) sev)                 GenericErrorStatus::new(cc, uc, sev), serialised alone
+           (21 sev (assignments))           GenericErrorData::new(sev) followed by assignments to its pub fields, serialised alone
+       aer-ctor  (0) = new_global()    (1 ff bus dev fn) = new_root_port / new_bridge(ff, PciDevice::new(bus, dev, fn)),
+                 ff: 0 FirmwareFirst::Disabled, 1 Enabled
+       AER setters (id value), applied in order: 1 num_records 2 max_sections 3 device_control 4 uncorrectable_error_mask
+                 5 uncorrectable_error_severity 6 correctable_error_mask 7 aer_cap_ctrl;
+                 root port only: 8 root_error_command;
+                 bridge only: 8 secondary_uncorrectable_error_mask 9 secondary_uncorrectable_error_severity 10 secondary_aer_cap_ctrl
+       enabled   0 EnabledStatus::Disabled, 1 Enabled
+       GHES setters: (1 v) num_records (2 v) max_sections (3 v) max_raw_length (4 gas) error_status_address
+                 (5 ntype (nsetters)) notification(NotificationStructure::new(ntype) + nsetters) (6 v) error_status_block_len;
+                 V2 only: (7 gas) read_ack_register (8 v) read_ack_preserve (9 v) read_ack_write;    gas: see Spec/GasS.v
+       ntype     0..15 = NotificationType in declaration order (0 Polled ... 15 RiscvHardwareErrorException)
+       nsetters  (id value): 1 conf_write_en 2 poll_interval_ms 3 vector 4 polling_threshold_value
+                 5 polling_threshold_window_ms 6 error_threshold_value 7 error_threshold_window_ms
+       sev       ErrorSeverity: 0 Recoverable 1 Fatal 2 Correctable 3 None
+       assignments (id value): 1 section_type 2 severity 3 revision 4 validation 5 flags 6 error_data_length
+                 (7 bytes16) fru_id (8 bytes20) fru_text (9 bytes8) timestamp
+   Observation protocol: every op emits one Num 0.  After an op 20 / 21 the observation `1` shows the bytes of that
+   stand-alone structure (not the table); after any other op it shows the table.  Ops 20 / 21 do not touch the table. *)
+From Coq Require Import NArith List Bool.
+From ACPI Require Import Lib.Bytes Lib.Sx Spec.Layout Spec.GasS.
 Import ListNotations.
-Definition hest_spec : tspec := null_spec.
+Open Scope N_scope.
+
+(* ---- PCIe AER root port (6, 48 bytes) / endpoint (7, 44) / bridge (8, 56) ---- *)
+Definition aer_size (ty : N) : nat := match ty with 6 => 48%nat | 7 => 44%nat | _ => 56%nat end.
+Definition aer_max_setter (ty : N) : N := match ty with 6 => 8 | 7 => 7 | _ => 10 end.
+
+Definition aer_ref (ty : N) (c : sx) (st : list sx) : option (list N) :=
+  let go (flags bus dev fn : N) :=
+    if setters_ok (fun k args => one_num args && (1 <=? k) && (k <=? aer_max_setter ty)) st then
+      lay (aer_size ty)
+        ([L 0 2 ty; L 2 2 0 (* SourceID: no setter *); L 4 2 0; L 6 1 flags; L 7 1 0 (* Enabled: no setter *);
+          L 8 4 (num_arg 1 st); L 12 4 (num_arg 2 st); L 16 4 bus; L 20 2 dev; L 22 2 fn; L 24 2 (num_arg 3 st); L 26 2 0;
+          L 28 4 (num_arg 4 st); L 32 4 (num_arg 5 st); L 36 4 (num_arg 6 st); L 40 4 (num_arg 7 st)]
+         ++ match ty with
+            | 6 => [L 44 4 (num_arg 8 st)]
+            | 8 => [L 44 4 (num_arg 8 st); L 48 4 (num_arg 9 st); L 52 4 (num_arg 10 st)]
+            | _ => []
+            end)
+    else None in
+  match c with
+  | SL [SA 0] => go 2 0 0 0                                        (* global: flag bit 1 *)
+  | SL [SA 1; SA ff; SA bus; SA dev; SA fn] =>                     (* firmware first: flag bit 0 *)
+      if (ff <? 2) && (bus <? 256) && (dev <? 32) && (fn <? 8) then go ff bus dev fn else None
+  | _ => None
+  end.
+
+(* ---- hardware error notification structure (28 bytes) ---- *)
+Definition notif_ref (ty : N) (nst : list sx) : option (list N) :=
+  if (ty <=? 15) && setters_ok (fun k args => one_num args && (1 <=? k) && (k <=? 7)) nst then
+    lay 28 [L 0 1 ty; L 1 1 28; L 2 2 (num_arg 1 nst); L 4 4 (num_arg 2 nst); L 8 4 (num_arg 3 nst); L 12 4 (num_arg 4 nst);
+            L 16 4 (num_arg 5 nst); L 20 4 (num_arg 6 nst); L 24 4 (num_arg 7 nst)]
+  else None.
+
+(* ---- generic hardware error source (9, 64 bytes) and version 2 (10, 92 bytes) ---- *)
+Definition ghes_setter_ok (ty k : N) (args : list sx) : bool :=
+  match k with
+  | 1 | 2 | 3 | 6 => one_num args
+  | 4 => match args with [g] => match gas_ref g with Some _ => true | None => false end | _ => false end
+  | 5 => match args with [SA nty; SL nst] => match notif_ref nty nst with Some _ => true | None => false end | _ => false end
+  | 7 => (ty =? 10) && match args with [g] => match gas_ref g with Some _ => true | None => false end | _ => false end
+  | 8 | 9 => (ty =? 10) && one_num args
+  | _ => false
+  end.
+
+Definition gas_arg (k : N) (st : list sx) : option (list N) :=
+  match last_call k st None with
+  | Some [g] => gas_ref g
+  | Some _ => None
+  | None => gas_ref (SL [SA 2])            (* never set: all zero *)
+  end.
+
+Definition ghes_ref (ty id en : N) (st : list sx) : option (list N) :=
+  if (id <? 65536) && (en <? 2) && setters_ok (ghes_setter_ok ty) st then
+    match gas_arg 4 st,
+          (match last_call 5 st None with
+           | Some [SA nty; SL nst] => notif_ref nty nst
+           | Some _ => None
+           | None => notif_ref 0 []        (* never set: type 0 (polled), length 28 *)
+           end),
+          gas_arg 7 st with
+    | Some esa, Some nt, Some rar =>
+        lay (if ty =? 10 then 92 else 64)
+          ([L 0 2 ty; L 2 2 id; L 4 2 0xFFFF; L 6 1 0; L 7 1 en; L 8 4 (num_arg 1 st); L 12 4 (num_arg 2 st);
+            L 16 4 (num_arg 3 st)] ++ LB 20 esa ++ LB 32 nt ++ [L 60 4 (num_arg 6 st)]
+           ++ (if ty =? 10 then LB 64 rar ++ [L 76 8 (num_arg 8 st); L 84 8 (num_arg 9 st)] else []))
+    | _, _, _ => None
+    end
+  else None.
+
+Definition hest_entry_ref (o : sx) : option (list N) :=
+  match o with
+  | SL [SA 1; c; SL st] => aer_ref 6 c st
+  | SL [SA 2; c; SL st] => aer_ref 7 c st
+  | SL [SA 3; c; SL st] => aer_ref 8 c st
+  | SL [SA 4; SA id; SA en; SL st] => ghes_ref 9 id en st
+  | SL [SA 5; SA id; SA en; SL st] => ghes_ref 10 id en st
+  | _ => None
+  end.
+
+(* ---- stand-alone: generic error status block (20 bytes + data; no data can be attached through the API) ----
+   BlockStatus: b0 uncorrectable error valid, b1 correctable error valid, b2 multiple uncorrectable, b3 multiple correctable.
+   From the counts: an error of a class exists (valid) iff its count >= 1; multiple iff its count >= 2. *)
+Definition ges_status (cc uc : N) : N :=
+  (if 1 <=? uc then 1 else 0) + (if 1 <=? cc then 2 else 0) + (if 2 <=? uc then 4 else 0) + (if 2 <=? cc then 8 else 0).
+
+Definition ges_ref (cc uc sev : N) : option (list N) :=
+  (* how a count of two or more maps onto the valid / multiple bits is the crate's choice, not the specification's: not judged *)
+  if (cc <? 2) && (uc <? 2) && (sev <=? 3) then
+    lay 20 [L 0 4 (ges_status cc uc); L 4 4 0; L 8 4 0; L 12 4 0; L 16 4 sev]
+  else None.
+
+(* ---- stand-alone: generic error data entry (ACPI 6.5 Table 18.13: 72 bytes + data) ---- *)
+Definition ged_assign_ok (k : N) (args : list sx) : bool :=
+  match k with
+  | 1 | 3 | 4 | 5 | 6 => one_num args
+  | 2 => match args with [SA v] => v <=? 3 | _ => false end
+  | 7 => match args with [b] => match sx_bytes b with Some l => Nat.eqb (length l) 16 | None => false end | _ => false end
+  | 8 => match args with [b] => match sx_bytes b with Some l => Nat.eqb (length l) 20 | None => false end | _ => false end
+  | 9 => match args with [b] => match sx_bytes b with Some l => Nat.eqb (length l) 8 | None => false end | _ => false end
+  | _ => false
+  end.
+
+Definition bytes_arg (k : N) (n : nat) (st : list sx) : list N :=
+  match last_call k st None with
+  | Some [b] => match sx_bytes b with Some l => map (fun x => x mod 256) l | None => repeatN 0 n end
+  | _ => repeatN 0 n
+  end.
+
+Definition ged_ref (sev : N) (st : list sx) : option (list N) :=
+  if (sev <=? 3) && setters_ok ged_assign_ok st then
+    let severity := match last_call 2 st None with Some [SA v] => v | _ => sev end in
+    lay 72 ([L 0 16 (num_arg 1 st) (* SectionType: a 16-byte GUID field *); L 16 4 severity; L 20 2 (num_arg 3 st);
+             L 22 1 (num_arg 4 st); L 23 1 (num_arg 5 st); L 24 4 (num_arg 6 st)]
+            ++ LB 28 (bytes_arg 7 16 st) ++ LB 44 (bytes_arg 8 20 st) ++ LB 64 (bytes_arg 9 8 st))
+  else None.
+
+Definition is_alone_op (o : sx) : bool :=
+  match o with SL (SA 20 :: _) | SL (SA 21 :: _) => true | _ => false end.
+
+Definition alone_ref (o : sx) : option (list N) :=
+  match o with
+  | SL [SA 20; SL [SA cc; SA uc]; SA sev] => ges_ref cc uc sev
+  | SL [SA 21; SA sev; SL st] => ged_ref sev st
+  | _ => None
+  end.
+
+(* ---- the table ---- *)
+Definition hest_adds (ops : list sx) : list sx := filter (fun o => negb (is_alone_op o)) ops.
+
+Definition hest_entries_ref (ops : list sx) : option (list (list N)) := opt_seq (map hest_entry_ref (hest_adds ops)).
+
+Definition last_op (ops : list sx) : option sx := match frev ops with o :: _ => Some o | [] => None end.
+
+Definition shows_alone (ops : list sx) : bool :=
+  match last_op ops with Some o => is_alone_op o | None => false end.
+
+Definition hest_image (ctor : sx) (ops : list sx) : option (list N) :=
+  match ctor with
+  | SL [o; t; r] =>
+      match sx_hdr_args o t r, hest_entries_ref ops with
+      | Some h, Some es =>
+          if shows_alone ops then match last_op ops with Some a => alone_ref a | None => None end
+          else if N.of_nat (length es) <? 2 ^ 32
+               then Some (ref_table [72; 69; 83; 84] 1 h (le 4 (N.of_nat (length es)) ++ concat es))
+               else None
+      | _, _ => None
+      end
+  | _ => None
+  end.
+
+Definition hest_type_size (e : list N) : N * nat := (field_at e 0 2, length e).
+
+Definition hest_spec : tspec := {|
+  ts_image := hest_image;
+  ts_walk := Some (40%nat, H_hest);
+  (* an observation taken right after a stand-alone structure shows no table: nothing to walk *)
+  ts_entries := fun _ ops => if shows_alone ops then None else option_map (map hest_type_size) (hest_entries_ref ops);
+  ts_counts := fun n => [(36%nat, 4%nat, N.of_nat n)];
+  ts_returns := fun _ => false
+|}.
